@@ -531,8 +531,8 @@ def _confine(repo, col, R="R-C11-confine"):
                               f"not in this view, every other compartment loses the channel", node=s.node)
                     continue
                 if name == "delete_channel" and what == "dropcols":
-                    g = [x for x in s.guards if T.find(x, lambda y: y.op == "mcall" and y.name == "all") is not None]
-                    ok = bool(g) and T.find(g[0], lambda y: y.op == "attr" and y.name == "nodes" and y.args[0].op == "attr"
+                    g = [x for x in s.guards if idx.none_true(x) is not None]
+                    ok = bool(g) and T.find(idx.none_true(g[0]), lambda y: y.op == "attr" and y.name == "nodes" and y.args[0].op == "attr"
                                             and y.args[0].name == "base") is not None
                     col.check(ok, R, fi, f"delete_channel: columns dropped only if no compartment of the base keeps the channel",
                               "guard np.all(~self.base.nodes[name])", f"columns are dropped under guard {[x.short(60) for x in s.guards]}",
